@@ -4,7 +4,8 @@ import graphlib as gl
 RULE = ('per generated graph and factory: every ordered pair (a, b) of nodes x the four is_*_of predicates, is_leaf, membership, '
         'iteration, every traversal, each with the argument given as CURIE with ":", CURIE with "_", TermId and Identified carrier; '
         'all compared with the Lean model (so all factories and all forms agree with each other); predicates additionally checked '
-        'against the traversals of the same implementation graph and against their converses; index API of the indexed graph: '
+        'against the traversals of the same implementation graph (also while such a traversal is still being consumed: the common-'
+        'relatives loop over every pair) and against their converses; index API of the indexed graph: '
         'idx_to_node/node_to_idx are inverse bijections on 0..n-1, root == idx_to_node(root_idx), every *_idx traversal and '
         'is_*_of_idx predicate is the image of the node API under that bijection. Exhaustive over all DAGs on <= 4 positions x '
         'label assignments; random n <= 12 (30 thorough). Non-trivial: the graph has an edge path of length >= 2 or a multi-parent '
@@ -72,6 +73,17 @@ def internal_consistency(ctx, factory, edges):
                 return f'is_leaf({a.value}) disagrees with get_children'
             if a not in g:
                 return f'{a.value} not in graph although iterated'
+        # the views must also agree when they are used TOGETHER: a predicate asked for every element of a traversal that is still
+        # being consumed (the usual way to intersect two closures), for all four pairs of traversal / predicate
+        for a in nodes:
+            for b in nodes:
+                for q, (meth, q2) in (('ancestors', ('is_ancestor_of', 'ancestors')), ('descendants', ('is_descendant_of', 'descendants')),
+                                      ('parents', ('is_parent_of', 'parents')), ('children', ('is_child_of', 'children'))):
+                    got = sorted(x.value for x in getattr(g, 'get_' + q)(a) if getattr(g, meth)(x, b))
+                    want = sorted(tr[q][a.value] & tr[q2][b.value])
+                    if got != want:
+                        return (f'[x for x in get_{q}({a.value}) if {meth}(x, {b.value})] = {got} but get_{q}({a.value}) & get_{q2}({b.value}) '
+                                f'= {want}')
         if hasattr(g, 'root_idx'):
             n = len(nodes)
             back = {}
@@ -126,7 +138,7 @@ def mk_cases(rng, edges, max_pairs=None):
 def run(ctx):
     rng = ctx.rng
     thorough = ctx.tier == 'thorough'
-    label_sets = gl.LABEL_SETS if thorough else gl.LABEL_SETS[:2]
+    label_sets = gl.LABEL_SETS if thorough else gl.LABEL_SETS[:3]
     for k in (2, 3, 4):
         cases = []
         gen = gl.exhaustive_graphs(k, label_sets)
